@@ -10,7 +10,13 @@ pub fn gen(seed: u64, cases: usize, flavour: &str, path: &str) {
         g.line("RESET");
         g.stats.bump("cases");
         for _ in 0..10 {
-            let n = if g.rng.chance(1, 40) { 1 } else { 2 + g.rng.below(if ddf { 40 } else { 14 }) as usize };
+            // one series in fifteen leaves the ordinary regime: a long history, magnitudes far from 1 (powers of two, so the
+            // return-based figures are unchanged), or epoch-second / epoch-millisecond dates
+            let stress = if g.rng.chance(1, 15) { 1 + g.rng.below(3) } else { 0 };
+            g.stats.bump(match stress { 1 => "stress_long_series", 2 => "stress_magnitudes", 3 => "stress_epoch_dates", _ => "ordinary_regime" });
+            let mag: f64 = if stress == 2 { *g.rng.pick(&[1099511627776.0, 1.0 / 1073741824.0, 1048576.0]) } else { 1.0 };
+            let (d0, dstep): (i64, i64) = if stress == 3 { *g.rng.pick(&[(1_700_000_000i64, 86_400i64), (1_700_000_000_000, 86_400_000), (1_700_000_000_000, 250)]) } else { (100, 1) };
+            let n = if stress == 1 { 300 + g.rng.below(1200) as usize } else if g.rng.chance(1, 40) { 1 } else { 2 + g.rng.below(if ddf { 40 } else { 14 }) as usize };
             let grid = g.rng.chance(1, 3);
             let flows = !ddf && g.rng.chance(1, 2);
             let infl = !ddf && g.rng.chance(1, 4);
@@ -37,7 +43,7 @@ pub fn gen(seed: u64, cases: usize, flavour: &str, path: &str) {
                     }
                 }
                 let inf = if infl { g.rng.below(5) as f64 * 0.01 } else { 0.0 };
-                line += &format!(" {} {} {} {}", 100 + i as i64, fb(v), fb(ncf), fb(inf));
+                line += &format!(" {} {} {} {}", d0 + dstep * i as i64, fb(v * mag), fb(ncf * mag), fb(inf));
             }
             g.stats.bump(&format!("shape_{shape}"));
             g.line(&line);
